@@ -245,6 +245,22 @@ func (f *FuncCFG) mentions(n ast.Node, blk *cfg.Block, out map[string]bool, seen
 				out["recv:"+cid.Name] = true
 			}
 		}
+		if be, ok := x.(*ast.BinaryExpr); ok {
+			switch be.Op {
+			case token.AND, token.AND_NOT, token.OR:
+				out["op:"+be.Op.String()] = true
+			}
+		}
+		if as, ok := x.(*ast.AssignStmt); ok {
+			switch as.Tok {
+			case token.AND_ASSIGN:
+				out["op:&"] = true
+			case token.AND_NOT_ASSIGN:
+				out["op:&^"] = true
+			case token.OR_ASSIGN:
+				out["op:|"] = true
+			}
+		}
 		id, ok := x.(*ast.Ident)
 		if !ok {
 			return true
@@ -264,10 +280,15 @@ func (f *FuncCFG) mentions(n ast.Node, blk *cfg.Block, out map[string]bool, seen
 		seen[v] = true
 		if f.params[v] {
 			out["param:"+v.Name()] = true
-			return true
+			if len(f.defs[v]) == 0 {
+				return true
+			}
+			// a re-assigned parameter is also expanded through its definitions, like a local
 		}
 		// local: named, and expanded through definitions
-		out["local:"+v.Name()] = true
+		if !f.params[v] {
+			out["local:"+v.Name()] = true
+		}
 		ds := f.defs[v]
 		var use []defSite
 		if len(ds) == 1 {
@@ -308,6 +329,7 @@ type Assume struct {
 // AssumeCond fixes every atomic condition mentioning all of Mentions to Val.
 type AssumeCond struct {
 	Mentions []string
+	Not      []string // the atom must mention none of these (keeps the assumption off the guard itself)
 	Val      bool
 }
 
@@ -355,6 +377,11 @@ func (f *FuncCFG) eval3(e ast.Expr, b *cfg.Block, a *Assume) (bool, bool) {
 		for _, ac := range a.Conds {
 			for _, s := range ac.Mentions {
 				if !m[s] {
+					continue next
+				}
+			}
+			for _, s := range ac.Not {
+				if m[s] {
 					continue next
 				}
 			}
@@ -1044,4 +1071,54 @@ func (f *FuncCFG) DumpConds() {
 		sort.Strings(ms)
 		fmt.Printf("loop at %s over: %s\n", f.P.Pos(l.Stmt.Pos()), strings.Join(ms, " "))
 	}
+}
+
+// NodeSites lists statement nodes (not branch conditions) mentioning all of syms.
+func (f *FuncCFG) NodeSites(syms ...string) []site {
+	var out []site
+	for _, b := range f.G.Blocks {
+		if !b.Live {
+			continue
+		}
+		for i, n := range b.Nodes {
+			if _, isExpr := n.(ast.Expr); isExpr {
+				continue
+			}
+			if _, isAssign := n.(*ast.AssignStmt); !isAssign {
+				if _, isInc := n.(*ast.IncDecStmt); !isInc {
+					continue
+				}
+			}
+			m := f.Mentions(n, b)
+			// the statement's own operator and direct symbols only: do not let definitions of locals leak in
+			direct := map[string]bool{}
+			f.mentions(n, b, direct, map[types.Object]bool{}, 100)
+			all := true
+			for _, s := range syms {
+				if !m[s] {
+					all = false
+					break
+				}
+			}
+			if all {
+				out = append(out, site{b, i, n, nil})
+			}
+		}
+	}
+	return out
+}
+
+// CheckMustNode: every path from 'from' to a target passes a statement mentioning all of syms.
+func (f *FuncCFG) CheckMustNode(from []*cfg.Block, targets map[*cfg.Block]bool, assume *Assume, syms ...string) (bool, []string, int) {
+	sites := f.NodeSites(syms...)
+	nodes := blocksOf(sites)
+	r := f.reach(from, nodes, assume)
+	for _, b := range f.G.Blocks {
+		if targets[b] && !nodes[b] {
+			if _, ok := r[b]; ok {
+				return false, f.pathTo(r, b), len(sites)
+			}
+		}
+	}
+	return true, nil, len(sites)
 }
